@@ -281,6 +281,25 @@ fn byte_distinguishers(view: &View, gens: &[(String, G1Projective)], m0: &Scalar
             }
         }
     }
+    // a transmitted per-byte group element that is a deterministic image of the byte (e.g. a ciphertext left at the
+    // identity / without its randomness for some byte values): P = byte·Q for a public generator Q
+    for (n, p) in view.g1.iter().filter(|(n, _)| n.contains("byte")) {
+        let i = match n.split('/').filter_map(|s| s.parse::<usize>().ok()).last() {
+            Some(i) if i < 32 => i,
+            _ => continue,
+        };
+        if b0[i] == b1[i] {
+            continue;
+        }
+        let mut qs: Vec<G1Projective> = gens.iter().map(|(_, q)| *q).collect();
+        qs.push(G1Projective::GENERATOR);
+        for q in qs {
+            if (*p == q * Scalar::from(b0[i] as u64)) != (*p == q * Scalar::from(b1[i] as u64)) {
+                found.push(format!("byte-element-without-randomness:{}", n));
+                break;
+            }
+        }
+    }
     // byte responses without a nonce, or sharing one: p_i = c·byte_i, p_i - p_j = c·(byte_i - byte_j)
     let byte_resp: Vec<(usize, &String, Scalar)> = view
         .scalars
@@ -369,14 +388,14 @@ fn clear_hash_of_claim(log: &[merlin::vlog::Entry], pres: &[u8], public: &[u8], 
 
 fn c07_suite<S: ShortGroupSignatureScheme>(em: &mut Emitter, base: &mut Rng, suite: &str) {
     let off = if suite == "bbs" { 0 } else { 1 };
-    let kinds = ["commitment", "commitment+range", "verenc", "verenc+scalar", "ved", "revocation", "membership", "signature-only", "equality", "equality2", "commitment-twice", "commitment-two-claims", "commitment+range-twice", "equal-hidden-claims"];
+    let kinds = ["commitment", "commitment+range", "verenc", "verenc+scalar", "ved", "revocation", "membership", "signature-only", "equality", "equality2", "commitment-twice", "commitment-two-claims", "commitment+range-twice", "equal-hidden-claims", "ved-byte-boundary"];
     for k in 0..em.n(20, 200) {
         if !em.mine(2 * k + off) {
             continue;
         }
         let rng = &mut base.sub((2 * k + off) as u64);
         let kind = kinds[k % kinds.len()];
-        if (kind == "ved" || kind == "verenc+scalar") && !em.thorough() && k >= 2 * kinds.len() {
+        if (kind == "ved" || kind == "verenc+scalar" || kind == "ved-byte-boundary") && !em.thorough() && k >= 2 * kinds.len() {
             continue;
         }
         let n_claims = 4 + rng.below(3) as usize;
@@ -384,7 +403,7 @@ fn c07_suite<S: ShortGroupSignatureScheme>(em: &mut Emitter, base: &mut Rng, sui
         let mut mix = Mix { n_creds: if kind.starts_with("equality") { 2 } else { 1 }, n_claims, age: rng.range(18, 80), ..Default::default() };
         // the hidden claim under attack
         let ci = match kind {
-            "commitment+range" | "commitment+range-twice" => 2,
+            "commitment+range" | "commitment+range-twice" | "ved-byte-boundary" => 2,
             "revocation" => 0,
             "membership" | "equality" | "equality2" | "equal-hidden-claims" => 1,
             _ => 1 + rng.below(n_claims as u64 - 1) as usize,
@@ -403,6 +422,11 @@ fn c07_suite<S: ShortGroupSignatureScheme>(em: &mut Emitter, base: &mut Rng, sui
             "verenc" => mix.verenc = Some((ci, false)),
             "verenc+scalar" => mix.verenc = Some((ci, true)),
             "ved" => mix.ved = Some(ci),
+            "ved-byte-boundary" => {
+                // number claims whose encodings differ in *which* bytes are zero (255 → …00 ff, 256 → …01 00)
+                mix.ved = Some(2);
+                mix.age = *rng.pick(&[255i64, 65535]);
+            }
             "revocation" => mix.revocation = true,
             "membership" => mix.membership = true,
             "equality" | "equality2" => mix.equality = true,
@@ -494,7 +518,7 @@ fn c07_suite<S: ShortGroupSignatureScheme>(em: &mut Emitter, base: &mut Rng, sui
         em.op(plan_line(&scn.schema, &p, suite), plan_class(&p, &scn.schema, &scn.nonce).0);
         let claim = &scn.bundles[0].credential.claims[ci];
         let m0 = claim.to_scalar();
-        let m1 = other_value(claim, rng).to_scalar();
+        let m1 = if kind == "ved-byte-boundary" { NumberClaim::from(mix.age as isize + 1).to_scalar() } else { other_value(claim, rng).to_scalar() };
         let view = view_of(&p);
         let gens = public_gens(&scn.schema);
         em.oracle_case(&format!("{} {} {}", suite, kind, k));
@@ -678,7 +702,7 @@ fn vb20_coin_relations(em: &mut Emitter, rng: &mut Rng) {
 
 /// the same for the signature proofs of knowledge: `commit_signature_pok` takes the random source, so the same
 /// seed gives the same commitment twice and two challenges give the coins
-fn pok_coin_relations<S: ShortGroupSignatureScheme>(em: &mut Emitter, rng: &mut Rng, suite: &str) {
+fn pok_coin_relations<S: ShortGroupSignatureScheme>(em: &mut Emitter, rng: &mut Rng, suite: &str, vsig: &str) {
     use credx::knox::short_group_sig_core::short_group_traits::ProofOfSignatureKnowledgeContribution;
     use credx::knox::short_group_sig_core::{HiddenMessage, ProofMessage};
     use std::num::NonZeroUsize;
@@ -729,7 +753,7 @@ fn pok_coin_relations<S: ShortGroupSignatureScheme>(em: &mut Emitter, rng: &mut 
         }
         em.oracle_case(&format!("{} pok coins {}", suite, k));
         for r in coin_relations(&coins, &secrets, &previous) {
-            em.violation("c07:pok-coins-related", format!("{}: the signature proof's coins satisfy an exact relation: {}", suite, r), json!({"suite": suite, "relation": r, "proof_1": j1, "proof_2": j2, "c1": sc_hex(&c1), "c2": sc_hex(&c2)}));
+            em.violation(vsig, format!("{}: the signature proof's coins satisfy an exact relation: {}", suite, r), json!({"suite": suite, "relation": r, "proof_1": j1, "proof_2": j2, "c1": sc_hex(&c1), "c2": sc_hex(&c2)}));
         }
         previous.extend(coins.iter().map(|(_, c)| *c));
     }
@@ -745,8 +769,8 @@ pub fn gen_c07(em: &mut Emitter, rng: &mut Rng) {
     c07_suite::<Ps>(em, rng, "ps");
     if em.mine(2 * em.n(20, 200)) {
         vb20_coin_relations(em, &mut rng.sub(6001));
-        pok_coin_relations::<Bbs>(em, &mut rng.sub(6002), "bbs");
-        pok_coin_relations::<Ps>(em, &mut rng.sub(6003), "ps");
+        pok_coin_relations::<Bbs>(em, &mut rng.sub(6002), "bbs", "c07:pok-coins-related");
+        pok_coin_relations::<Ps>(em, &mut rng.sub(6003), "ps", "c07:pok-coins-related");
     }
 }
 
@@ -1000,4 +1024,11 @@ pub fn gen_c12(em: &mut Emitter, rng: &mut Rng) {
                cross-ratio e(P_a,Q_b)=e(P_b,Q_a) for G1 leaves P and G2 leaves Q. oracle: a test holding for the same-credential pair only".into();
     c12_suite::<Bbs>(em, rng, "bbs");
     c12_suite::<Ps>(em, rng, "ps");
+    // the randomisation behind unlinkability: the proof's coins (recovered from two answers to one commitment) must not be
+    // algebraically tied to its secrets (signature randomiser, hidden messages) or to each other — such a tie lets anyone
+    // solve for the randomiser from one transmitted proof and unblind the signature point
+    if em.mine(0) {
+        pok_coin_relations::<Bbs>(em, &mut rng.sub(6102), "bbs", "c12:pok-coins-related");
+        pok_coin_relations::<Ps>(em, &mut rng.sub(6103), "ps", "c12:pok-coins-related");
+    }
 }
